@@ -93,6 +93,51 @@ example :
                        streams := [{ id := 0, script := [.pending] }], queue := [.sink { id := 0 }] } : PS Nat)).1 = .done := by
   decide +kernel
 
+/-- … and it takes nothing more from the publishers: after the channel is closed a poll, from any state and with
+    any number of registrations still queued, leaves every publisher stream exactly as it was (no stream is polled:
+    a poll would consume the head of its script or remove it) and accepts no further message. Shutdown does not
+    depend on the publishers running dry. -/
+theorem c16_pubsub_closed_takes_nothing_more (fuel : Nat) (oracle : List Nat) (s : PS α) (hc : s.closed = true) :
+    (pollFuel fuel oracle s).2.1.accepted = s.accepted ∧
+    ∃ adopted, (pollFuel fuel oracle s).2.1.streams = s.streams ++ adopted := by
+  induction fuel generalizing oracle s with
+  | zero => exact ⟨rfl, [], by simp [pollFuel]⟩
+  | succ fuel ih =>
+    have hh : ∀ (o : List Nat) (s : PS α), s.closed = true →
+        (handlePart o s (pollFuel fuel)).2.1.accepted = s.accepted ∧
+        ∃ adopted, (handlePart o s (pollFuel fuel)).2.1.streams = s.streams ++ adopted := by
+      intro o s hc
+      unfold handlePart
+      cases hq : s.queue with
+      | cons sock q =>
+        simp only
+        have hc' : (adopt s sock q).closed = true := by unfold adopt; cases sock <;> exact hc
+        obtain ⟨ha, ex, hs⟩ := ih o (adopt s sock q) hc'
+        refine ⟨by rw [ha]; unfold adopt; cases sock <;> rfl, ?_⟩
+        rw [hs]
+        unfold adopt
+        cases sock with
+        | stream sc => exact ⟨{ id := s.nextStream, script := sc } :: ex, by simp⟩
+        | sink c => exact ⟨ex, rfl⟩
+      | nil =>
+        simp only
+        rw [if_pos hc]
+        cases (flushSinks s).1 <;> exact ⟨rfl, [], by simp [flushSinks]⟩
+    unfold pollFuel
+    cases hx : s.buffered with
+    | some x =>
+      simp only
+      cases hrd : (pollReady s.sinks).1 with
+      | pending => exact ⟨rfl, [], by simp⟩
+      | ready => simp only; exact hh oracle _ hc
+    | none => simp only; exact hh oracle s hc
+
+/-- non-vacuity: a closed router whose only publisher has a standing backlog finishes without touching it -/
+example :
+    (pollFuel 10 [] ({ closed := true, sinks := [{ id := 0 }], nextSink := 1, nextStream := 1,
+                       streams := [{ id := 0, script := List.replicate 50 (.item 9) }] } : PS Nat)).1 = .done := by
+  decide +kernel
+
 end Selium.Route
 
 
@@ -114,6 +159,87 @@ theorem c16_reqrep_closed_outcome (s : RR) (hc : s.closed = true) :
   · exact Or.inr (Or.inr (Or.inr h))
   · exact absurd h (rrPoll_terminates (rwork s + 1) s (Nat.lt_succ_self _))
 
+/-! ### after the channel is closed the router takes nothing more from its peers' streams -/
+
+def Keeps (t s' : RR) : Prop := s'.taken = t.taken ∧ s'.repTaken = t.repTaken
+
+theorem partA_keeps (t : RR) : Keeps t (partA t).state := by
+  unfold partA Keeps
+  split
+  · split
+    · exact ⟨rfl, rfl⟩
+    · exact ⟨rfl, rfl⟩
+    · split <;> exact ⟨rfl, rfl⟩
+  · exact ⟨rfl, rfl⟩
+
+theorem partB_keeps (t : RR) : Keeps t (partB t).state := by
+  unfold partB Keeps
+  split
+  · exact ⟨rfl, rfl⟩
+  · split
+    · split
+      · exact ⟨rfl, rfl⟩
+      · exact ⟨rfl, rfl⟩
+      · split <;> exact ⟨rfl, rfl⟩
+    · split
+      · exact ⟨rfl, rfl⟩
+      · exact ⟨rfl, rfl⟩
+
+theorem partH_keeps (t : RR) (ht : t.closed = true) : Keeps t (partH t).state := by
+  unfold partH Keeps
+  split
+  · show (adoptSock t _ _).taken = t.taken ∧ (adoptSock t _ _).repTaken = t.repTaken
+    unfold adoptSock
+    split
+    · exact ⟨rfl, rfl⟩
+    · split <;> exact ⟨rfl, rfl⟩
+  · rw [if_pos ht]
+    split <;> exact ⟨rfl, rfl⟩
+
+theorem iter_keeps (s : RR) (hc : s.closed = true) : Keeps s (iter s).state := by
+  unfold iter
+  have k1 := partA_keeps { s with serverPending := s.server.isNone, streamPending := false }
+  have h1 := partA_closed { s with serverPending := s.server.isNone, streamPending := false } hc
+  cases ha : partA { s with serverPending := s.server.isNone, streamPending := false } with
+  | ret o s' => rw [ha] at k1; exact k1
+  | again s' => rw [ha] at h1; exact absurd h1 id
+  | next s1 =>
+    rw [ha] at h1 k1
+    simp only [Flow.andThen]
+    have k2 := partB_keeps s1
+    have h2 := partB_closed s1 h1
+    cases hb : partB s1 with
+    | ret o s' => rw [hb] at k2; exact ⟨k2.1.trans k1.1, k2.2.trans k1.2⟩
+    | again s' => rw [hb] at k2; exact ⟨k2.1.trans k1.1, k2.2.trans k1.2⟩
+    | next s2 =>
+      rw [hb] at h2 k2
+      simp only
+      have k3 := partH_keeps s2 h2
+      have h3 := partH_closed s2 h2
+      cases hh : partH s2 with
+      | ret o s' => rw [hh] at k3; exact ⟨(k3.1.trans k2.1).trans k1.1, (k3.2.trans k2.2).trans k1.2⟩
+      | again s' => rw [hh] at k3; exact ⟨(k3.1.trans k2.1).trans k1.1, (k3.2.trans k2.2).trans k1.2⟩
+      | next s' => rw [hh] at h3; exact absurd h3 id
+
+/-- Once the channel is closed a poll of the request/reply router, with any fuel and from any state, takes no
+    further request from a requestor and no further reply from a replier: shutdown does not wait for the peers to
+    run dry (what it had accepted before is dealt with as `c16_reqrep_closed_outcome` says). -/
+theorem c16_reqrep_closed_takes_nothing_more (fuel : Nat) (s : RR) (hc : s.closed = true) :
+    (rrPoll fuel s).2.taken = s.taken ∧ (rrPoll fuel s).2.repTaken = s.repTaken := by
+  induction fuel generalizing s with
+  | zero => exact ⟨rfl, rfl⟩
+  | succ fuel ih =>
+    unfold rrPoll
+    have hk := iter_keeps s hc
+    have hcl := iter_closed s hc
+    cases hi : iter s with
+    | ret o s' => rw [hi] at hk; exact hk
+    | next s' => rw [hi] at hcl; exact absurd hcl id
+    | again s' =>
+      rw [hi] at hk hcl
+      have := ih s' hcl
+      exact ⟨this.1.trans hk.1, this.2.trans hk.2⟩
+
 example : (rrPoll 20 ({ closed := true, bufReq := some (.msg none 1), queue := [.client { id := 0 } [.pending]] } : RR)).1 = .done := by
   decide +kernel
 
@@ -123,4 +249,6 @@ end Selium.Route
 #print axioms Selium.Route.c16_pubsub_finishes
 #print axioms Selium.Route.c16_pubsub_finishes_flushed
 #print axioms Selium.Route.c16_pubsub_blocked_then_retry
+#print axioms Selium.Route.c16_pubsub_closed_takes_nothing_more
 #print axioms Selium.Route.c16_reqrep_closed_outcome
+#print axioms Selium.Route.c16_reqrep_closed_takes_nothing_more
